@@ -425,6 +425,10 @@ def oracle_lerax_to_gym(ctx: Ctx, case):
                 ctx.check(fresh(genv.state) is None, "C13/adapter/post-done-state-not-fresh", tags=tags)
             else:
                 ctx.check(c01.tree_close(genv.state, nxt), "C13/adapter/state-not-the-successor", tags=tags, step=i)
+        # seeding: reset(seed=s) on the used adapter starts the same episode it started the first time
+        first = np.asarray(LeraxToGymEnv(lenv).reset(seed=case["seed"])[0])
+        again = np.asarray(genv.reset(seed=case["seed"])[0])
+        ctx.check(np.array_equal(first, again), "C13/adapter/reseeded-reset-depends-on-adapter-history", tags=tags, seed=case["seed"])
     else:
         genv = LeraxToGymnaxEnv(lenv)
         params = genv.default_params
@@ -452,17 +456,19 @@ def oracle_lerax_to_gym(ctx: Ctx, case):
 
 
 @functools.lru_cache(maxsize=None)
-def _gymnax_pair(name):
+def _gymnax_pair(name, max_steps=None):
     import gymnax
 
     from lerax.compatibility.gymnax import GymnaxToLeraxEnv
 
     genv, params = gymnax.make(name)
+    if max_steps is not None and hasattr(params, "max_steps_in_episode"):
+        params = params.replace(max_steps_in_episode=max_steps)  # the adapter is built for these, not the default, parameters
     return GymnaxToLeraxEnv(genv, params), genv, params
 
 
 def oracle_gymnax_to_lerax(ctx: Ctx, case):
-    env, genv, params = _gymnax_pair(case["env"])
+    env, genv, params = _gymnax_pair(case["env"], case.get("gx_max_steps"))
     tags = {"adapter": "GymnaxToLeraxEnv", "env": case["env"]}
     k0 = jr.key(case["seed"])
     state = env.initial(key=k0)
@@ -484,7 +490,7 @@ def oracle_gymnax_to_lerax(ctx: Ctx, case):
         if bool(gdone):
             ended = True
             break
-    ctx.count(nontrivial=n >= 3, classes=["GymnaxToLeraxEnv", case["env"]] + ["episode_end"] * ended, key=[case["env"], case["seed"] % 97, n])
+    ctx.count(nontrivial=n >= 3, classes=["GymnaxToLeraxEnv", case["env"]] + ["episode_end"] * ended + ["custom_params"] * (case.get("gx_max_steps") is not None), key=[case["env"], case["seed"] % 97, n, case.get("gx_max_steps")])
 
 
 PARTS = {
@@ -511,7 +517,8 @@ def adapter_cases(draw, env, box, bound, n_max=40, adapters=(None,)):
     else:
         h = draw(st.integers(0, bound - 1))
         acts = [h if hold else draw(st.integers(0, bound - 1)) for _ in range(n)]
-    return {"env": env, "seed": draw(st.integers(0, 2**31 - 1000)), "actions": acts, "adapter": draw(st.sampled_from(list(adapters))), "time_limit": draw(st.sampled_from([None, 2, 4, 7]))}
+    seed = draw(st.one_of(st.sampled_from([0, 1, 2]), st.integers(0, 2**31 - 1000)))  # small seeds (incl. 0) are what users type
+    return {"env": env, "seed": seed, "actions": acts, "adapter": draw(st.sampled_from(list(adapters))), "time_limit": draw(st.sampled_from([None, 2, 4, 7])), "gx_max_steps": draw(st.sampled_from([None, 3, 6, 11]))}
 
 
 def run(ctx: Ctx):
